@@ -31,6 +31,10 @@ type Encoder struct {
 	clsDefList []ClassDef
 	nameMap    map[string]string
 	refMap     map[_refKey]int
+
+	// why an earlier value of the current stream could not be written; the stream ends in the middle of that
+	// value (whose containers are in refMap already), so nothing more can be added to it until Reset
+	failed error
 }
 
 //NewEncoder new
@@ -52,6 +56,7 @@ func (e *Encoder) Reset(w io.Writer) {
 	e.writer = w
 	e.clsDefList = make([]ClassDef, 0, 11)
 	e.refMap = make(map[_refKey]int, 11)
+	e.failed = nil
 }
 
 //RegisterNameType register name type
@@ -66,7 +71,13 @@ func (e *Encoder) RegisterNameMap(mp map[string]string) {
 
 //WriteObject write object
 func (e *Encoder) WriteObject(data interface{}) error {
+	if e.failed != nil {
+		return newCodecError("WriteObject", "an earlier value of this stream could not be written", e.failed)
+	}
 	_, err := e.WriteData(data)
+	if err != nil {
+		e.failed = err
+	}
 	return err
 }
 
